@@ -5,9 +5,9 @@ import FinProtoc.Spec
 * `Val.depth` – nesting depth (the fuel the IR interpreters need).
 * `ckFree*`   – encoding this value touches no checksum field, so its bytes do not depend on
                 what precedes it in the buffer.
-* `lenSafe*`  – every length-of field is immediately followed by its target and the target's
-                value is checksum-free (DESIGN §8.0: a checksum *inside* a length-measured
-                payload makes "the bytes that precede it" ambiguous and is outside the claim).
+* `lenSafe*`  – between a length-of field and its target (target included) no value contains a
+                checksum field (DESIGN §8.0: a checksum computed while the length slot still holds its
+                placeholder makes "the bytes that precede it" ambiguous and is outside the claim).
 -/
 namespace FinProtoc
 
@@ -68,6 +68,15 @@ def ckFreeFields (S : Schema) : List Field → List Val → Bool
   | _, _ => true
 end
 
+/-- one field's value is checksum-free -/
+def ckFreeField (S : Schema) (f : Field) (v : Val) : Bool :=
+  if f.rep then (match v with | .list es => ckFreeList S f.kind es | _ => true) else ckFreeVal S f.kind v
+
+/-- the fields from the front up to and including the first one called `target` are checksum-free -/
+def ckFreeUpTo (S : Schema) (target : String) : List Field → List Val → Bool
+  | f :: fs, v :: vs => ckFreeField S f v && (f.name == target || ckFreeUpTo S target fs vs)
+  | _, _ => true
+
 mutual
 def lenSafeVal (S : Schema) : FKind → Val → Bool
   | .obj pkt, .struct vs => match S.find pkt with | some p => lenSafeFields S p.fields vs | none => true
@@ -76,12 +85,13 @@ def lenSafeVal (S : Schema) : FKind → Val → Bool
 def lenSafeList (S : Schema) (k : FKind) : List Val → Bool
   | [] => true
   | v :: vs => lenSafeVal S k v && lenSafeList S k vs
+/-- between a length-of field and its target (target included) no value contains a checksum field -/
 def lenSafeFields (S : Schema) : List Field → List Val → Bool
   | f :: fs, v :: vs =>
     (if f.rep then (match v with | .list es => lenSafeList S f.kind es | _ => true) else lenSafeVal S f.kind v)
-      && (match f.kind, fs, vs with
-          | .lengthOf _ _, f2 :: _, v2 :: _ => !f2.rep && ckFreeVal S f2.kind v2
-          | _, _, _ => true)
+      && (match f.kind with
+          | .lengthOf _ target => ckFreeUpTo S target fs vs
+          | _ => true)
       && lenSafeFields S fs vs
   | _, _ => true
 end
